@@ -38,6 +38,13 @@ CHECKS = {
         note="Parts that do not parse alone are discarded (counted). Parts never start with a blank/comment line because the suite documents that such a line after a with-macro block belongs to the macro.",
         ref="DESIGN.md §4 C14",
     ),
+    "C16": dict(
+        category="translation_validation",
+        technique="translation validation by regeneration: both generators are re-run from the working tree's grammars under several PYTHONHASHSEED values and the outputs are compared with each other (byte-wise) and with the shipped modules (per-rule AST comparison)",
+        text="Translation validation of the two shipped (grammar, generated parser) pairs: every rule method of the shipped module must have the same decorators, parameters and body AST as the regenerated one, tables and module-level statements must agree, and generation must be byte-identical across runs and hash seeds. Held.",
+        note="Formatting, comments, unused imports and return annotations are ignored as the property allows; the generators themselves are trusted to be the 'documented generation step' (Taskfile.yml without the ruff pass).",
+        ref="DESIGN.md §4 C16",
+    ),
     "C18": dict(
         technique="property-based testing over size-parameterised input families with deterministic work counters (token reads/peeks/resets of a counting Tokenizer subclass): fixed families from the grammar's recursion structure + Hypothesis-drawn wrapper mixtures, valid and invalid; linear bound and doubling-ratio oracle",
         text="Exploration: each family is instantiated at doubling sizes and must satisfy work <= 3000*tokens+20000 and work(2n)/work(n) <= 2.6; no wall-clock is involved so verdicts are reproducible. Decides linearity only for the families generated. Held except the listed finding D42 (quadratic on rejected nested subprocesses).",
